@@ -887,6 +887,61 @@ def global_effects(ctx, world, thread=False):
                         f"{name} (written by {sorted({f for f, _, _ in writes})} on every differentiation) is one object shared by all threads: {cref.qual} does not derive from threading.local",
                         "two threads; thread A runs a nested differentiation; thread B's trace exits between A's outer entry and inner entry: A's inner trace gets the id of its outer trace",
                     )
+    # the same state kept elsewhere: an instance of a class with mutating methods that is created inside a function and
+    # escapes it (stored in a ContextVar / global / returned), or a module-level ContextVar
+    def _mutating_methods(cnode):
+        out = []
+        for st in cnode.body:
+            if isinstance(st, ast.FunctionDef) and st.name != "__init__":
+                selfn = st.args.args[0].arg if st.args.args else None
+                for x in ast.walk(st):
+                    if isinstance(x, (ast.Assign, ast.AugAssign)):
+                        for t in x.targets if isinstance(x, ast.Assign) else [x.target]:
+                            if isinstance(t, ast.Attribute) and isinstance(t.value, ast.Name) and t.value.id == selfn:
+                                out.append((st.name, t.attr))
+        return out
+
+    for mod in core_mods:
+        ctxvars = set()
+        for name, bl in mod.top.items():
+            b = bl[-1]
+            if b[0] == "assign" and isinstance(b[1], ast.Call):
+                r_ = world.repo.resolve_expr(mod, b[1].func)
+                if r_ is not None and r_.qual.endswith("ContextVar"):
+                    ctxvars.add(name)
+        for fq, fnode in mod.functions():
+            if not isinstance(fnode, ast.FunctionDef):
+                continue
+            for x in ast.walk(fnode):
+                if not (isinstance(x, ast.Assign) and len(x.targets) == 1 and isinstance(x.targets[0], ast.Name) and isinstance(x.value, ast.Call)):
+                    continue
+                cref = world.repo.resolve_expr(mod, x.value.func)
+                if cref is None or cref.kind != "repo" or cref.okind != "class":
+                    continue
+                wr = _mutating_methods(cref.node)
+                if not wr:
+                    continue
+                var = x.targets[0].id
+                escapes = None
+                for y in ast.walk(fnode):
+                    if isinstance(y, ast.Return) and isinstance(y.value, ast.Name) and y.value.id == var:
+                        escapes = escapes or "is returned to every caller"
+                    if isinstance(y, ast.Call) and isinstance(y.func, ast.Attribute) and y.func.attr == "set" and isinstance(y.func.value, ast.Name) and y.func.value.id in ctxvars and any(isinstance(a_, ast.Name) and a_.id == var for a_ in y.args):
+                        escapes = f"is stored in the ContextVar `{y.func.value.id}`"
+                    if isinstance(y, ast.Global) and var in y.names:
+                        escapes = "is bound to a module global"
+                if escapes is None:
+                    continue
+                n_single += 1
+                inst = f"{fq}:{cref.qual}"
+                if thread:
+                    mro = [k.qual for k in class_mro(world.repo, cref)]
+                    if "threading.local" in mro or "_thread._local" in mro:
+                        ctx.ob("A11.thread", inst, True, loc_of(mod, x), sample="derives from threading.local")
+                    else:
+                        ctx.fail("A11.thread", inst, f"thread-shared:{fq}:{cref.qual.rsplit('.', 1)[-1]}", loc_of(mod, x), f"the {cref.qual} created here {escapes}; its methods ({sorted({f for f, _ in wr})}) update it in place and the class does not derive from threading.local: a ContextVar (or global) holds ONE mutable object that every context copied from the creating one - copy_context().run, asyncio.to_thread, executor workers - shares", "two workers started with a copy of a context that has already differentiated; one of them nests: its inner trace gets the id of its own outer trace when the other worker's trace exits in between")
+                else:
+                    ctx.ob("A11.state", inst, True, loc_of(mod, x), nontrivial=False)
     ctx.floor("A11 module-level singletons with mutating methods", n_single, 1)
 
 
